@@ -51,6 +51,8 @@ func main() {
 		err = genPlugConv(os.Args[2], os.Args[3])
 	case "scandecode":
 		err = genScanDecode(os.Args[2], os.Args[3])
+	case "jsondecode":
+		err = genJSONDecode(os.Args[2], os.Args[3])
 	case "register":
 		err = genRegister(os.Args[2], os.Args[3])
 	case "awaitrun":
